@@ -118,3 +118,102 @@ def report(repo: Repo, rep, rule: str, results, construct: str) -> None:
             rep.violation(rule, construct, inst, why, loc=fi_loc)
         else:
             rep.undecide(rule, inst)
+
+
+# --------------------------------------------------------------------------- generic outcome contracts
+def _outcomes(repo: Repo, qualname: str, args=(), kwargs=None, allow=()):
+    ev = make_eval(repo, inline_depth=2, allow_inline=set(allow) | {qualname.split(".")[-1]})
+    p = Path()
+    B = ev.builder_obj(p)
+    fi = repo.func(M_BUILDER, qualname)
+    dummy = ast.parse("f(x)").body[0].value
+    res = ev.call_func(Func(fi, self_v=B), list(args), dict(kwargs or {}), p, dummy, force=True)
+    out = []
+    for r, q in res:
+        for w in q.worlds():
+            at = dict(Path._view(w, "A|"))
+            idn = dict(Path._view(w, "I|"))
+            for k, v in idn.items():
+                at[f"{k} is {v}"] = True
+            for k, vs in Path._view(w, "X|").items():
+                for v in vs:
+                    at.setdefault(f"{k} is {v}", False)
+            evs = [(e[0], show(e[1]) if len(e) > 1 and hasattr(e[1], "key") else str(e[1]) if len(e) > 1 else "") for e in q.events if e and e[0] in ("ensure_object", "exec")]
+            out.append((("raise" if q.ctl == "raise" else show(r)), at, evs))
+    return fi, out
+
+
+def outcome_contract(repo: Repo, qualname: str, expected, args=(), kwargs=None, allow=(), why: str = "") -> List[Tuple[bool, str, str]]:
+    """expected: [(value text, {atom substring: bool}, [event kinds])]. Every actual outcome must match exactly one expected
+    entry (same value, every listed atom present with that polarity, same event kinds) and every expected entry must occur."""
+    fi, actual = _outcomes(repo, qualname, args, kwargs, allow)
+    return _match(qualname.split(".")[-1], actual, expected, why)
+
+
+def _match(name: str, actual, expected, why: str):
+    res = []
+    hit = set()
+    for val, at, evs in actual:
+        m = None
+        for i, (ev_, eat, eev) in enumerate(expected):
+            if (ev_.fullmatch(val) is None) if hasattr(ev_, "fullmatch") else (ev_ != val):
+                continue
+            if all(any(sub in k and b == pol for k, b in at.items()) for sub, pol in eat.items()) and sorted(x[0] for x in evs) == sorted(eev):
+                m = i
+                break
+        cond = ", ".join(f"{'' if b else 'not '}{k}" for k, b in sorted(at.items()) if not k.endswith(" is None") or b)
+        if m is None:
+            res.append((False, f"{name}: outcome `{val}` under [{cond[:200]}] is not one of the confirmed outcomes", why))
+        else:
+            hit.add(m)
+            res.append((True, f"{name}: `{val}` under [{cond[:160]}]", why))
+    for i, (ev_, eat, eev) in enumerate(expected):
+        if i not in hit:
+            res.append((False, f"{name}: the confirmed outcome `{getattr(ev_, 'pattern', ev_)}` under {eat} no longer occurs", why))
+    return res
+
+
+def get_config_contract(repo: Repo):
+    why = ("Config lookup: with look_in_parents the nearest Config along the MRO (getattr), without it only the class's own (__dict__); a Config that does not derive "
+           "from BaseConfig is completed with BaseConfig's attributes, the user's attributes winning")
+    import re as _re
+
+    out = []
+    for lip in (True, False):
+        for who, cond in (("c", {"c is None": False}), ("B.cls", {"c is None": True})):
+            base = f"getattr({who}, 'Config', BaseConfig)" if lip else f"{who}.__dict__.get(Config, BaseConfig)"
+            exp = [
+                (base, {f"issubclass({base}, BaseConfig))": True, **cond}, []),
+                (_re.compile(_re.escape(f"type(Config, (BaseConfig, {base}), {{**BaseConfig.__dict__, **") + r"[\w.(), ']+" + _re.escape(".__dict__})")),
+                 {f"issubclass({base}, BaseConfig))": False, **cond}, []),
+            ]
+            fi, actual = _outcomes(repo, "CodeBuilder.get_config", [Sym("c")], {"look_in_parents": Const(lip)})
+            mine = [a for a in actual if (("c is None", True) in a[1].items()) == (who == "B.cls")]
+            out += _match("get_config", mine, exp, why)
+    return out
+
+
+def field_default_contract(repo: Repo):
+    why = ("a field's default is its Field.default; else its default_factory (called only on request); a name without a Field falls back to the class attribute; "
+           "MISSING means 'no default'")
+    F = "B.dataclass_fields.get(name)"
+    exp = [
+        (f"{F}.default", {f"bool({F})": True, f"{F}.default is MISSING": False}, []),
+        (f"{F}.default_factory()", {f"bool({F})": True, f"{F}.default is MISSING": True, "bool(call_factory)": True, f"{F}.default_factory is MISSING": False}, []),
+        (f"{F}.default_factory", {f"bool({F})": True, f"{F}.default is MISSING": True, "bool(call_factory)": True, f"{F}.default_factory is MISSING": True}, []),
+        (f"{F}.default_factory", {f"bool({F})": True, f"{F}.default is MISSING": True, "bool(call_factory)": False}, []),
+        ("B.namespace.get(name, MISSING)", {f"bool({F})": False}, []),
+    ]
+    return outcome_contract(repo, "CodeBuilder.get_field_default", exp, [Sym("name")], {"call_factory": Sym("call_factory")}, why=why)
+
+
+def codegen_option_contract(repo: Repo):
+    why = "a code generation option is enabled iff it is listed in the class's (inherited) Config.code_generation_options"
+    exp = [("True", {"opt in B.get_config(B.cls).code_generation_options": True}, []), ("False", {"opt in B.get_config(B.cls).code_generation_options": False}, [])]
+    return outcome_contract(repo, "CodeBuilder.is_code_generation_option_enabled", exp, [Sym("opt")], why=why)
+
+
+def type_name_identifier_contract(repo: Repo):
+    why = "a type that cannot be referred to by its dotted name (local class) is bound by identity under its sanitised name; any other type is referred to by name"
+    exp = [("clean_id(type_name(typ))", {"is_local_type_name(type_name(typ))": True}, ["ensure_object"]), ("type_name(typ)", {"is_local_type_name(type_name(typ))": False}, [])]
+    return outcome_contract(repo, "CodeBuilder.get_type_name_identifier", exp, [Sym("typ")], why=why)
